@@ -28,7 +28,8 @@ Sorts. Both sorts of the code are *unstable* (`sort_unstable_by`, rayon `par_sor
 order they leave among elements their comparator does not separate is unspecified. The model fixes one:
 * digests: stable merge sort by (position, decoy, sequence, semi_enzymatic, missed_cleavages) and then the
   protein name (digests equal on the code's key differ in nothing but the protein name; the only consumer of
-  their order is the group's protein list, which `reorder_peptides` sorts again);
+  their order is the group's protein list, which `reorder_peptides` sorts again; `digest_sort_irrelevant` in
+  `Props/C08Sources.lean` proves that ANY arrangement sorted by the code's comparator gives the same database);
 * peptides: stable merge sort by the full key `cmpKey` (**assumption A-sort**, see `Props/C08.lean`:
   `comparator_off_duplicates` shows `cmpActual = cmpKey` on peptides with different keys; on key-equal
   duplicates `cmpActual` is not even asymmetric, so what rayon's quicksort does with them is outside any
